@@ -109,8 +109,8 @@ func (s *Source) Start(ctx *resolve.Context, headers http.Header, input []byte, 
 	if sub, ok := ctx.Context().Value(subCtxKey{}).(*Subscriber); ok && sub.rig == r {
 		inst.Creator = sub
 	}
-	if st := r.startupOfCurrentGoroutine(); st != nil && inst.Creator != nil {
-		st.Creator.Store(inst.Creator)
+	if inst.Creator != nil {
+		r.ownStartup(inst.Creator)
 	}
 	inst.Key = r.keyOf(inst.Input, inst.Header)
 	inst.CancelledAtStart = ctx.Context().Err() != nil
@@ -171,9 +171,7 @@ func (h *HookSource) SubscriptionOnStart(hc resolve.StartupHookContext, input []
 	r.hooksInFlight.Add(1)
 	defer r.hooksInFlight.Add(-1)
 	r.hookBegun.Add(1)
-	if st := r.startupOfCurrentGoroutine(); st != nil {
-		st.Creator.Store(sub)
-	}
+	r.ownStartup(sub)
 	call := &HookCall{Sub: sub, Ts: r.Clock.Tick()}
 	r.mu.Lock()
 	r.hookCalls = append(r.hookCalls, call)
